@@ -308,6 +308,9 @@ std::unique_ptr<ISlot> convert_from(ISlot & src, bool move)
 struct Pool {
     std::vector<std::unique_ptr<ISlot>> impl;
     std::vector<std::optional<Model>> model;   // nullopt: live object in an unspecified state, or no object
+    // a default-constructed field, or a copy of one: no cells; the array layer's length is 0 (array::owning_data_t()
+    // sets it), whatever the layers above report. Assigning such a field makes the destination one as well.
+    std::vector<char> empty_default;
 };
 
 std::vector<uint64_t> decode_ext(unsigned type, const std::vector<unsigned> & e)
@@ -324,6 +327,12 @@ std::vector<uint64_t> decode_ext(unsigned type, const std::vector<unsigned> & e)
 Verdict check_all(const Pool & p, size_t step, const char * what)
 {
     for (size_t s = 0; s < p.impl.size(); ++s) {
+        if (p.impl[s] && !p.model[s] && p.empty_default[s]) {
+            auto sh = p.impl[s]->shape();
+            if (sh.empty() || sh.back() != std::vector<uint64_t>{0}) {
+                return "after step " + std::to_string(step) + " (" + what + "): slot " + std::to_string(s) + " [" + TNAMES[p.impl[s]->type] + "] holds a default-constructed field (or a copy of one) but its array layer reports length " + (sh.empty() ? std::string("?") : std::to_string(sh.back().at(0)));
+            }
+        }
         if (!p.impl[s] || !p.model[s]) {
             continue;
         }
@@ -372,13 +381,14 @@ Verdict interpret(const Case & c, RunInfo & info)
     Pool p;
     p.impl.resize(c.slots);
     p.model.resize(c.slots);
+    p.empty_default.assign(c.slots, 0);
     std::vector<int> copy_partner(c.slots, -1);   // slot i currently shares its contents' origin with copy_partner[i]
     size_t step = 0;
     for (const Op & o : c.ops) {
         ++step;
         const unsigned a = o.a % c.slots, b = o.b % c.slots;
         const unsigned kind = o.kind % NKINDS;
-        bool done = true;
+        bool done = true, now_empty = false;
         switch (kind) {
             case 0: {   // construct(a, type, extents)
                 auto ext = decode_ext(o.t, o.e);
@@ -401,6 +411,7 @@ Verdict interpret(const Case & c, RunInfo & info)
                     return std::make_unique<Slot<B>>();
                 });
                 p.model[a].reset();
+                now_empty = true;
                 break;
             }
             case 2: {   // write(a, coord, value)
@@ -426,6 +437,17 @@ Verdict interpret(const Case & c, RunInfo & info)
             }
             case 3:     // copy_construct(a <- b)
             case 4: {   // move_construct(a <- b)
+                if (a != b && p.impl[b] && !p.model[b] && p.empty_default[b]) {
+                    // from a default-constructed field: the new field is one as well
+                    p.impl[a] = kind == 3 ? p.impl[b]->copy_construct() : p.impl[b]->move_construct();
+                    p.model[a].reset();
+                    copy_partner[a] = -1;
+                    now_empty = true;
+                    if (kind == 4) {
+                        p.empty_default[b] = 0;
+                    }
+                    break;
+                }
                 if (a == b || !p.impl[b] || !p.model[b]) {
                     done = false;
                     break;
@@ -445,6 +467,20 @@ Verdict interpret(const Case & c, RunInfo & info)
             }
             case 5:     // copy_assign(a = b), self included
             case 6: {   // move_assign(a = std::move(b)), self included
+                if (p.impl[a] && p.impl[b] && !p.model[b] && p.empty_default[b] && p.impl[a]->type == p.impl[b]->type) {
+                    // assigning a default-constructed field (to anything, a moved-from field included) leaves a field without cells
+                    if (kind == 5) {
+                        p.impl[a]->copy_assign(*p.impl[b]);
+                        now_empty = true;
+                    } else {
+                        p.impl[a]->move_assign(*p.impl[b]);
+                        now_empty = a != b;
+                        p.empty_default[b] = 0;
+                    }
+                    p.model[a].reset();
+                    copy_partner[a] = -1;
+                    break;
+                }
                 if (!p.impl[a] || !p.impl[b] || !p.model[b] || p.impl[a]->type != p.impl[b]->type) {
                     done = false;
                     break;
@@ -550,6 +586,9 @@ Verdict interpret(const Case & c, RunInfo & info)
         if (!done) {
             info.skipped++;
             continue;
+        }
+        if (kind != 2 && kind != 11) {
+            p.empty_default[a] = now_empty ? 1 : 0;   // every other operation replaces (or destroys) the object in slot a
         }
         info.executed++;
         if (auto bad = check_all(p, step, KINDS[kind])) {
